@@ -1,4 +1,5 @@
 mod backoff;
+mod decoders;
 mod topic;
 mod wire;
 mod util;
@@ -13,6 +14,7 @@ fn main() {
     match args[0].as_str() {
         "backoff" => backoff::main(&args[1..]),
         "topic" => topic::main(&args[1..]),
+        "decoders" => decoders::main(&args[1..]),
         "wire" => wire::main(&args[1..]),
         other => {
             eprintln!("unknown engine {other}");
